@@ -44,6 +44,9 @@ def params(rng, variant, n, quick):
 
 def with_y(c, y, nd):
     d = dict(c)
+    if d["variant"] not in ("gu", "pgu") and d.get("_acc"):
+        d["api"] = "accessor"
+    d.pop("_acc", None)
     d["y"] = [v if isinstance(v, str) else str(v) for v in y]
     d["nd"] = nd if isinstance(nd, str) else str(nd)
     return d
@@ -88,6 +91,7 @@ def gen_links(tier, seed, rels):
             for _ in range(per):
                 n = rng.choice(sizes)
                 c = params(rng, variant, n, quick)
+                c["_acc"] = rng.random() < 0.25          # both executions of the pair through whitsvc / whitswcv
                 vals = series(rng, n, rng.choice(["noise", "season", "steps", "season"]))
                 vals = [max(-9000, min(9000, v)) for v in vals]
                 miss = miss_pattern(rng, n, need)
